@@ -21,6 +21,8 @@ THEOREMS = [
     "RedunModel.C03.hist_inv",
     "RedunModel.C03.history_shallow_sound",
     "RedunModel.C03.history_shallow_sound_repaired",
+    "RedunModel.C03.history_shallow_sound_proposed",
+    "RedunModel.Db.recordCallNode_shapes",
     "RedunModel.C03.record_complete_partial",
     "RedunModel.C03.refuted_crash",
     "RedunModel.C03.refuted_retry",
@@ -60,13 +62,15 @@ RULE = ("a case = one generated task program (2-5 tasks, random call DAG, random
         "operation of every run is replayed on the Lean model (durable state after every commit, check_cache and "
         "get_subtree_tasks answers compared); every completed run's result is compared with direct evaluation of the "
         "program. distinct = (program shape, history) pairs; non-trivial = history with at least one edit")
-LEVEL_TEXT = ("Lean 4 proof. Full strength on the model of the REPAIRED recording code (history_shallow_sound: all "
-              "histories of recordings, process deaths at any commit, restarts, retries, cache hits, imports; any "
-              "registry): a shallow hit implies every task recorded at or beneath the node is registered. "
-              "record_crash_safe / recordCallNode_atomic: every crash point of record_call_node. For the unrepaired "
-              "code the statement is refuted by four closed witnesses (refuted_crash, refuted_retry, refuted_transfer, "
-              "refuted_cse_twin) and record_complete_partial is what remains. Tie: every backend operation of real "
-              "runs replayed on the model + result oracle on the real code.")
+LEVEL_TEXT = ("Lean 4 proof. Full strength (history_shallow_sound: all histories of recordings, process deaths at any "
+              "commit, restarts, retries, cache hits, imports; any registry): a shallow hit implies every task recorded at "
+              "or beneath the node is registered -- for every model variant whose _get_call_node rejects an empty subtree "
+              "set and whose cached jobs take their subtree tasks from the backend (fixes (a),(b),(c)); atomicity of "
+              "record_call_node is NOT needed (recordCallNode_shapes / record_crash_safe: every crash point of the "
+              "two-commit and of the one-commit code). For the unrepaired code the statement is refuted by four closed "
+              "witnesses (refuted_crash, refuted_retry, refuted_transfer, refuted_cse_twin) and record_complete_partial "
+              "is what remains. Tie: every backend operation and every Job.subtree_tasks of real runs replayed on the "
+              "model + result oracle on the real code.")
 LEVEL_NOTE = ("modelled-not-verified: sqlite atomicity, autoflush; hash collision freedom is a hypothesis (MerkleOK). "
               "The model cannot exhibit: torn writes, concurrent writers to one database, context-tagged call nodes, "
               "prov=False jobs, value-store / File validity (C04), the scheduler's event order (taken from the real run). "
